@@ -45,20 +45,13 @@ def ftaskJ (t : FTask) : Json :=
   Json.mkObj [("nodes", Json.arr (lvls.filterMap fun l => (t.get l).map fun n => Json.arr #[toJson l, nodeJ n]).toArray),
               ("completed", toJson (sortLevels (dedupLevels t.completed)))]
 
-/-- `Parser.add` over the flat tasks: same routing and discarding as `PM.Parser.add` -/
-def fparserAdd (p : List (String × FTask)) (m : PMsg) : Except Err (List (String × FTask) × List (String × FTask)) := do
-  let cur := (p.lookup m.uuid).getD {}
-  let t ← cur.add m
-  let rest := p.filter (fun e => e.1 != m.uuid)
-  if t.isComplete then pure ([(m.uuid, t)], rest) else pure ([], (m.uuid, t) :: rest)
-
 def runFlat (msgs : List PMsg) : Json := Id.run do
   let mut p : List (String × FTask) := []
   let mut steps : Array Json := #[]
   let mut failed := false
   for m in msgs do
     if failed then break
-    match fparserAdd p m with
+    match FParser.add p m with
     | .ok (done, p') =>
       p := p'
       steps := steps.push (Json.mkObj [("y", Json.arr (done.map fun e => ftaskJ e.2).toArray),
